@@ -192,6 +192,35 @@ def check(P, R):
                     if d_.kind == 'aug' or (d_.kind == 'assign' and d_.value is not None and not (
                             isinstance(d_.value, ast.Subscript) or (isinstance(d_.value, ast.Call) and call_attr(d_.value) in ('split', 'partition', 'rpartition')))):
                         altered = d_
+            def _index_form(e_, part):
+                """`D[S + 1:]` (payload) / `D[1:S]` (signature) with S = D.index(<sep>) / D.find(<sep>): the first separator, as split(sep, 1) finds it"""
+                x_ = T.expand(dec, e_, n, keep=tuple(v_ for v_ in rd.names() if False)) if False else e_
+                if isinstance(x_, ast.Name):
+                    ds_ = rd.at(n, x_.id)
+                    if len(ds_) == 1 and ds_[0].value is not None:
+                        x_ = ds_[0].value
+                if not (isinstance(x_, ast.Subscript) and isinstance(x_.slice, ast.Slice) and isinstance(x_.value, ast.Name) and x_.slice.step is None):
+                    return False
+                D_ = x_.value.id
+                lo_, up_ = x_.slice.lower, x_.slice.upper
+
+                def _is_sep_pos(v_, plus):
+                    if plus:
+                        if not (isinstance(v_, ast.BinOp) and isinstance(v_.op, ast.Add) and is_const(v_.right, 1)):
+                            return False
+                        v_ = v_.left
+                    if isinstance(v_, ast.Call) and call_attr(v_) in ('index', 'find') and dotted(v_.func.value) == D_ and len(v_.args) == 1:
+                        return True
+                    if not isinstance(v_, ast.Name):
+                        return False
+                    dd_ = [d for nn_ in g.nodes for d in rd.gen.get(nn_, []) if d.name == v_.id]
+                    return len(dd_) == 1 and dd_[0].value is not None and isinstance(dd_[0].value, ast.Call) and call_attr(dd_[0].value) in ('index', 'find') \
+                        and dotted(dd_[0].value.func.value) == D_ and len(dd_[0].value.args) == 1
+                if part == 'msg':
+                    return up_ is None and lo_ is not None and _is_sep_pos(lo_, True)
+                return is_const(lo_, 1) and up_ is not None and _is_sep_pos(up_, False)
+            if not has_split and msg_arg is not None and _index_form(msg_arg, 'msg'):
+                has_split = True
             okm = has_split and not decoded_first and altered is None
             R.ob('C15.b', dec, hm, okm, text=f'HMAC message = {short(msg_arg)}', detail='' if okm else
                  ('the payload is base64-decoded before it is authenticated: several altered texts decode to the same bytes and still verify'
@@ -217,6 +246,7 @@ def check(P, R):
             if okg:
                 gcl = rd.closure_nodes(got.value, n)
                 okg = any(isinstance(y, ast.Call) and call_attr(y) in ('split', 'partition') for y in gcl)
+            okg = okg or _index_form(got, 'sig')
             R.ob('C15.b', dec, got, okg, text=f'received signature = {short(got)}', detail='' if okg else
                  'the received signature is not <sig part>[1:] of the split input')
             # the split is one split with maxsplit 1 on the separator
@@ -498,6 +528,14 @@ def check_get_cookie(P, R):
         cl = rd.closure_nodes(a0, cn) if a0 is not None else []
         ok = any(isinstance(y, ast.Call) and call_attr(y) == 'get' and dotted(y.func.value) == 'self.cookies'
                  and y.args and isinstance(y.args[0], ast.Name) and y.args[0].id == key_p for y in cl)
+        if not ok:
+            # the same lookup spelled `jar[key]` (under `key in jar`, or inside try / except KeyError) with jar = self.cookies
+            for y in cl:
+                if isinstance(y, ast.Subscript) and isinstance(y.slice, ast.Name) and y.slice.id == key_p:
+                    base_ = y.value
+                    if dotted(base_) == 'self.cookies' or (isinstance(base_, ast.Name) and any(
+                            d_.value is not None and dotted(d_.value) == 'self.cookies' for n_ in g.nodes for d_ in rd.gen.get(n_, []) if d_.name == base_.id)):
+                        ok = True
         R.ob('C15.e', f, c, ok, text=f'decoded text = self.cookies.get({key_p})', detail='' if ok else 'the text decoded is not the cookie of the requested name')
         ok = isinstance(a1, ast.Name) and a1.id == secret_p
         R.ob('C15.e', f, c, ok, text='secret forwarded', detail='' if ok else 'the secret of this call is not the one used for verification')
@@ -527,8 +565,11 @@ def check_get_cookie(P, R):
                 else:
                     leaves.append(e)
             # a flag computed before (`signed = bool(secret and value)`) stands for its expression
-            texp = T.expand(f, tn.ast, tn, keep=tuple(f.params) + tuple(d_.name for n_ in g.nodes for d_ in rd.gen.get(n_, []) if d_.value is not None and isinstance(d_.value, ast.Call)
-                                                                        and call_attr(d_.value) == 'get'))
+            texp = T.expand(f, tn.ast, tn, keep=tuple(f.params) + tuple(d_.name for n_ in g.nodes for d_ in rd.gen.get(n_, []) if d_.value is not None and (
+                (isinstance(d_.value, ast.Call) and call_attr(d_.value) == 'get') or (isinstance(d_.value, (ast.IfExp, ast.Subscript)) and 'cookies' in src(d_.value))
+                or any(isinstance(s_, ast.Subscript) and isinstance(s_.value, ast.Name) and any(dd_.value is not None and dotted(dd_.value) == 'self.cookies'
+                                                                                              for nn_ in g.nodes for dd_ in rd.gen.get(nn_, []) if dd_.name == s_.value.id)
+                       for s_ in ast.walk(d_.value)))))
 
             def unbool(e):
                 if isinstance(e, ast.Call) and dotted(e.func) == 'bool' and len(e.args) == 1:
